@@ -72,4 +72,13 @@ def expectedFor_C18 : List (String × String) := [
 /-- the code behind C18 branches on exactly the conditions the model was written against -/
 theorem conditions_as_modelled_C18 : Gen.condSitesFor_C18 = expectedFor_C18 := by rfl
 
+def expectedOptFor_C18 : List (String × String) := [
+  ("lib/diff_read.go:readPatchDiffElement:Equals#1", "none"),
+  ("lib/diff_read.go:ReadMergeString:Equals#1", "none"),
+  ("lib/diff_write.go:Diff.RenderMerge:Equals#1", "none")
+]
+
+/-- every call inside the functions behind C18 passes on the option / metadata list the model passes on -/
+theorem option_plumbing_as_modelled_C18 : Gen.optSitesFor_C18 = expectedOptFor_C18 := by rfl
+
 end Jd.CondSites
